@@ -2,6 +2,7 @@
 from . import _secp as S
 
 ID = "C06"
+EXTRA_TARGETS = ["Proofs/EcdsaRefine.vo", "Proofs/EcdsaAbstractInst.vo"]
 LEVEL = "partial"
 RULE = ("(r, s) in {1, 2, 0x7f, 0x80, 2^247.., 2^248-1, 2^255-1, 2^255, n/2, n/2+1, n-2, n-1, random} (and rejected: 0, n, 2^256-1, "
         "wrong lengths), s biased so that the final DER byte takes each of the fourteen flag values; DER round trip, DER+flag round "
